@@ -16,10 +16,12 @@ import build as buildmod  # noqa: E402
 
 REPO = buildmod.REPO
 NCPU = int(os.environ.get('VERIF_JOBS', '16'))
+# this VM gains little beyond ~8 sanitizer processes (page-fault bound); 8 is the default fan-out
+NWORK = int(os.environ.get('VERIF_WORKERS', '8'))
 
 SAN_ENV = {
     'ASAN_OPTIONS': 'abort_on_error=0:exitcode=77:detect_leaks=0:allocator_may_return_null=1:'
-                    'detect_stack_use_after_return=0:handle_abort=1:max_malloc_fill_size=0',
+                    'detect_stack_use_after_return=0:handle_abort=1:quarantine_size_mb=8:malloc_context_size=8',
     'UBSAN_OPTIONS': 'halt_on_error=0:print_stacktrace=1',
     'TSAN_OPTIONS': 'halt_on_error=0:exitcode=0:second_deadlock_stack=1:history_size=4:suppressions='
                     + os.path.join(VERIF, 'tools', 'tsan.supp'),
@@ -213,7 +215,7 @@ class Check:
             se = (ex.stderr or b'').decode('latin-1')
             return -999, so, se, True, time.time() - t
 
-    def run_cases(self, exe, base_args, total_cases, per_case_timeout=60.0, workers=NCPU, env=None,
+    def run_cases(self, exe, base_args, total_cases, per_case_timeout=60.0, workers=NWORK, env=None,
                   max_restarts=40, chunk=None, label=''):
         """Run cases [0,total) of a case-based harness split over workers; restart after a crash at case+1.
         Returns list of WorkerOut (one per process run)."""
